@@ -530,7 +530,7 @@ pub fn expect(pre: &Snapshot, op: &Op) -> Exp {
     let (l, c) = (pre.lines, pre.columns);
     let (t, b) = pre.region();
     match &op {
-        Nop | Bell | ReportDeviceAttributes(_) | Display | Paint => e.alts.push(s),
+        Nop | Bell | ReportDeviceAttributes(_) | Display | Paint | ClearDirty => e.alts.push(s),
         AlignmentDisplay => {
             e.unchecked = true;
             e.dirty_all = true;
